@@ -107,6 +107,12 @@ def instant(date7) -> _dt.datetime:
     return _dt.datetime(y, mo, d, h, mi, s, tzinfo=_dt.timezone(_dt.timedelta(minutes=off)))
 
 
+def spec_instant(spec: dict) -> _dt.datetime:
+    """The instant the Date: header denotes (``second-60`` writes hh:mm:60 for the model's hh:mm:59 + 1 s)."""
+    t = instant(spec["date"])
+    return t + _dt.timedelta(seconds=1) if spec.get("date_style") == "second-60" else t
+
+
 def strip_attachments(spec: dict) -> dict:
     t = copy.deepcopy(spec)
     t["atts"] = []
@@ -175,11 +181,13 @@ def _is_ew(atom: str) -> bool:
 
 
 def fold(name: str, atoms: list[str], eol: str, width: int = 76, cont: str = " ", colon: str = ": ",
-         ew_fold: str = "never") -> str:
+         ew_fold: str = "free") -> str:
     """Header line(s): atoms joined by one blank, folded before an atom when the line would exceed width.
 
-    ``ew_fold``: what to do at a boundary between an encoded-word and ordinary text — "never" fold there (clean
-    form) or "always" fold there (the risky form: CPython's decode_header() drops that blank)."""
+    ``ew_fold``: what to do at a boundary between an encoded-word and ordinary text — "free" (fold wherever the
+    width asks for it; right for structured headers, where the phrase is parsed before it is decoded), "never"
+    fold there (clean form of an unstructured header) or "always" fold there (the risky form: CPython's
+    decode_header() drops that blank)."""
     line = name + colon.rstrip(" ") if not atoms else name + colon + atoms[0]
     out = []
     for prev, a in zip(atoms, atoms[1:]):
@@ -267,6 +275,8 @@ def render_date(date7, style: str) -> str:
         day = str(d)
     elif style == "obs-year2":
         return f"{wd}, {day} {_MONTHS[mo - 1]} {y % 100:02d} {h:02d}:{mi:02d}:{s:02d} {zone}"
+    elif style == "second-60":                 # RFC 5322 3.3: second = 2DIGIT, 00..60 (leap second)
+        return f"{wd}, {day} {_MONTHS[mo - 1]} {y} {h:02d}:{mi:02d}:60 {zone}"
     return f"{wd}, {day} {_MONTHS[mo - 1]} {y} {h:02d}:{mi:02d}:{s:02d} {zone}"
 
 
@@ -526,7 +536,7 @@ def random_spec(rng, tok, fx: dict, *, allow=None, depth: int = 0) -> dict:
     else:
         words.append(rng.choice(SAMPLES["us-ascii"]))
     words.append(tok("s"))
-    longsubj = rng.random() < 0.35
+    longsubj = rng.random() < 0.35 and (mode == "hand" or hcs == "us-ascii")   # stdlib refolding of long non-ASCII: writer fault
     if longsubj:
         for _ in range(rng.randrange(4, 12)):
             words.append(rng.choice([tok("s"), rng.choice(SAMPLES[hcs])]))
@@ -565,7 +575,9 @@ def random_spec(rng, tok, fx: dict, *, allow=None, depth: int = 0) -> dict:
     # ---- addresses
     name_kinds = ["none", "ascii", "ascii", "comma", "escapes", "nonascii", "nonascii-comma"]
     name_kinds = [k for k in name_kinds if allow.get("name:" + k, True)]
-    if hcs == "us-ascii":
+    if hcs == "us-ascii" or mode == "stdlib":
+        # CPython 3.12's header *generator* mangles separators when it refolds non-ASCII address lists (a writer
+        # fault, reproduced), so non-ASCII display names are written by the hand writer only
         name_kinds = [k for k in name_kinds if not k.startswith("nonascii")]
     used = set()
 
@@ -574,7 +586,9 @@ def random_spec(rng, tok, fx: dict, *, allow=None, depth: int = 0) -> dict:
         if force_name and k == "none":
             k = "ascii"
         used.add("name:" + k + (":" + hcs if k.startswith("nonascii") else ""))
-        style = "quoted-local" if allow.get("quoted_local", False) and rng.random() < 0.1 else "plain"
+        style = "quoted-local" if allow.get("quoted_local", True) and rng.random() < 0.08 else "plain"
+        if style == "quoted-local":
+            used.add("addr:quoted-local-part")
         return [_name(rng, tok, k, hcs if hcs != "us-ascii" else "utf-8"), _addr(rng, tok, style)]
 
     def alist(lo, hi, groups=True):
@@ -598,7 +612,9 @@ def random_spec(rng, tok, fx: dict, *, allow=None, depth: int = 0) -> dict:
     style = rng.choice(DATE_STYLES) if mode == "hand" else "std"
     if style not in allow.get("date_styles", DATE_STYLES):
         style = "std"
-    y = rng.randrange(1995, 2037)
+    if style == "obs-year2":
+        pass
+    y = rng.choice([rng.randrange(1995, 2037), rng.randrange(1971, 2061)])
     mo, d = rng.randrange(1, 13), rng.randrange(1, 29)
     h, mi, s = rng.randrange(24), rng.randrange(60), rng.randrange(60)
     off = rng.choice([0, 60, 120, -300, -480, 330, 540, -180, 600])
@@ -612,8 +628,8 @@ def random_spec(rng, tok, fx: dict, *, allow=None, depth: int = 0) -> dict:
         s = 0
     elif style == "single-digit-day":
         d = rng.randrange(1, 10)
-    elif style == "obs-year2":
-        y = rng.choice([rng.randrange(2000, 2037), rng.randrange(1995, 2000)])
+    if style == "obs-year2":
+        y = rng.choice([rng.randrange(2000, 2037), rng.randrange(1995, 2000)])   # unambiguous under both the RFC (50) and POSIX (69) pivots
     spec["date"] = [y, mo, d, h, mi, s, off]
     spec["date_style"] = style
     feats.append("date:" + style)
@@ -705,6 +721,8 @@ def make_attachment(rng, tok, kind: str, fx: dict) -> dict:
     cs = rng.choice(["utf-8", "utf-8", "us-ascii"])
     sample = rng.choice(SAMPLES[cs])
     fname_tok = tok("f")
+    fname_tok = rng.choice([fname_tok] * 4 + [f"{fname_tok} {rng.choice(SAMPLES['utf-8'])}", f"{fname_tok}-" + "long-name-" * 9,
+                                              f'{fname_tok} "q"; x', f"{fname_tok} {rng.choice(SAMPLES['utf-8'])} " + "läng-" * 14])
     if kind in ("txt", "txt-8bit", "txt-qp"):
         lines = [f"{tok('a')} {sample}", "From attachment line " + tok("a"), tok("a")]
         data = ("\n".join(lines) + "\n").encode("utf-8")
@@ -727,7 +745,8 @@ def make_attachment(rng, tok, kind: str, fx: dict) -> dict:
              "xlsx": "application/vnd.openxmlformats-officedocument.spreadsheetml.sheet"}[kind]
     name, data = rng.choice(fx[kind])
     stem = rng.choice([fname_tok, f"{fname_tok} with blank", f"{fname_tok}.v2"])
-    return {"filename": f"{stem}.{kind}", "ctype": ctype, "kind": kind, "disp": "attachment", "cte": "base64", "data": data,
+    ext = rng.choice([kind, kind, kind, kind.upper(), ""])        # "" -> routed by MIME type only
+    return {"filename": f"{stem}.{ext}" if ext else stem.replace(".", "_"), "ctype": ctype, "kind": kind, "disp": "attachment", "cte": "base64", "data": data,
             "fixture": name}
 
 
@@ -750,6 +769,16 @@ def nested_eml_attachment(rng, tok, fx: dict, pol: str) -> dict:
             "inner": inner, "data": b""}
 
 
+def force_second_60(spec: dict) -> None:
+    """Risky form: a leap-second time of day (hh:mm:60), valid per RFC 5322 section 3.3."""
+    spec["hdr"]["mode"] = "hand"
+    spec["hdr"].setdefault("extra", [])
+    d = spec["date"]
+    d[5] = 59
+    spec["date_style"] = "second-60"
+    spec["features"] = sorted(set(f for f in spec["features"] if not f.startswith("date:")) | {"date:second-60", "risky:date-second-60"})
+
+
 def force_fold_at_encoded_word(rng, tok, spec: dict) -> None:
     """Risky form: a hand-folded Subject with a line break exactly between an encoded-word and ordinary text."""
     cs = rng.choice(NONASCII_CHARSETS)
@@ -762,33 +791,65 @@ def force_fold_at_encoded_word(rng, tok, spec: dict) -> None:
     spec["features"] = sorted(set(f for f in spec["features"] if not f.startswith("subj:")) | {f"subj:mixed:{cs}", "risky:fold-at-encoded-word"})
 
 
+def decode_unstructured(raw_value: str) -> str:
+    """Own RFC 2047 reader for an unstructured header value (used to validate the *stdlib writer*): unfold,
+    decode encoded-words, drop white space between adjacent encoded-words, keep every other blank."""
+    v = re.sub(r"\r?\n(?=[ \t])", "", raw_value).rstrip("\r\n")
+    out = []
+    for tokn in re.split(r"([ \t]+)", v):
+        if not tokn:
+            continue
+        if tokn.isspace():
+            out.append(("ws", tokn))
+            continue
+        mm = re.fullmatch(r"=\?([^?]+)\?([bBqQ])\?([^?]*)\?=", tokn)
+        if mm:
+            cs, enc, payload = mm.groups()
+            if enc in "bB":
+                rawb = base64.b64decode(payload + "=" * (-len(payload) % 4))
+            else:
+                rawb = binascii.a2b_qp(payload.replace("_", " "), header=False)
+            if out and out[-1][0] == "ws" and len(out) > 1 and out[-2][0] == "ew":
+                out.pop()
+            out.append(("ew", rawb.decode(cs)))
+        else:
+            out.append(("tx", tokn))
+    return "".join(x for _, x in out)
+
+
 def header_roundtrip_problems(spec: dict) -> list[str]:
-    """Read the rendered header block back with the *modern* stdlib parser (email.policy.default, the
-    header-registry code — not decode_header()/getaddresses() that the extractors use) and name the headers
-    whose value does not equal the model.  Used to keep writer faults (CPython's refolding of non-ASCII
-    address lists is known to mangle separators) out of the workload."""
+    """Writer validation for stdlib-rendered header blocks (they carry ASCII-only address headers): the Subject
+    is read back with this module's own RFC 2047 reader, address headers / date / id with the modern stdlib
+    parser (email.policy.default — the header-registry code, not decode_header()/getaddresses() that the
+    extractors use).  Names the headers whose value does not equal the model, so that a writer fault (CPython's
+    refolding is known to mangle some values) is kept out of the workload instead of being blamed on a reader."""
     import email
 
     light = dict(spec, atts=[], wrap_mixed=False)
-    m = email.message_from_bytes(render_message(light), policy=_policy.default)
+    raw = render_message(light)
+    m = email.message_from_bytes(raw, policy=_policy.default)
+    c = email.message_from_bytes(raw)
     bad = []
-    if re.sub(r"\s+", " ", str(m["Subject"] or "")).strip() != spec["subject"]:
+    try:
+        if re.sub(r"\s+", " ", decode_unstructured(str(c["Subject"]))).strip() != spec["subject"]:
+            bad.append("Subject")
+    except Exception:  # noqa: BLE001
         bad.append("Subject")
     for h, k in (("From", None), ("To", "to"), ("Cc", "cc"), ("Bcc", "bcc"), ("Reply-To", "reply_to")):
         want = [list(spec["from"])] if k is None else flat(spec.get(k))
-        hv = m[h]
         try:
+            hv = m[h]
             got = [[a.display_name, a.addr_spec] for a in hv.addresses] if hv is not None else []
         except Exception:  # noqa: BLE001
             got = None
         if got != want:
             bad.append(h)
     try:
-        if m["Date"].datetime != instant(spec["date"]) and not (spec.get("date_style") == "minus0000"):
+        if m["Date"].datetime != instant(spec["date"]):
             bad.append("Date")
     except Exception:  # noqa: BLE001
         bad.append("Date")
-    if str(m["Message-ID"] or "").strip() != spec["message_id"]:
+    if str(c["Message-ID"] or "").strip() != spec["message_id"]:
         bad.append("Message-ID")
     return bad
 
@@ -840,6 +901,7 @@ def self_test() -> None:
                     hv = " ".join(atoms)
                     got = str(email.header.make_header(email.header.decode_header(hv)))
                     assert got == t, (cs, mode, style, got, t)
+                    assert decode_unstructured(fold("Subject", atoms, "\r\n", 40, ew_fold="never")[9:]).strip() == t, (cs, mode, style)
     for style in DATE_STYLES:
         d7 = [2024, 3, 5, 7, 8, 0 if style == "noseconds" else 9,
               -300 if style == "zone-named" else 0 if style in ("zone-gmt", "zone-ut", "minus0000") else 345]
